@@ -177,8 +177,18 @@ def _pool_init(variants):
         exe(v, "vdrv")
 
 
+_PM_ITEMS = None
+_PM_FUNC = None
+
+
+def _pm_call(i):
+    return _PM_FUNC(_PM_ITEMS[i])
+
+
 def pmap(func, items, workers=None, chunksize=1, variants=("asan",)):
-    """Map func over items in worker processes (each worker lazily owns its own vdrv). Ordered results (generator)."""
+    """Map func over items in forked worker processes (each worker lazily owns its own vdrv). Ordered results
+    (generator). Items and func are inherited through fork, so they need not be picklable; results must be."""
+    global _PM_ITEMS, _PM_FUNC
     workers = workers or int(os.environ.get("VERIF_WORKERS", "16"))
     for v in variants:
         exe(v, "vdrv")  # build once in the parent
@@ -187,10 +197,18 @@ def pmap(func, items, workers=None, chunksize=1, variants=("asan",)):
         for it in items:
             yield func(it)
         return
+    _PM_ITEMS, _PM_FUNC = items, func
+    # drivers owned by the parent must not be shared with children
+    saved = dict(_drivers)
+    _drivers.clear()
     ctx = multiprocessing.get_context("fork")
-    with ctx.Pool(workers) as pool:
-        for r in pool.imap(func, items, chunksize):
-            yield r
+    try:
+        with ctx.Pool(workers) as pool:
+            for r in pool.imap(_pm_call, range(len(items)), chunksize):
+                yield r
+    finally:
+        _drivers.update(saved)
+        _PM_ITEMS = _PM_FUNC = None
 
 
 def chunks(seq, n):
